@@ -29,6 +29,10 @@ CHECKS = {
    text="Storage-corruption fault injection on the snapshot files that simulated runs produce: per chosen file every truncation length, every single-bit flip (sampled on large files in the quick tier), appended tails, zero-fill, garbage and every length field replaced by 2^31..2^64-1, each opened in a child process through the mmap and non-mmap loaders next to older intact snapshots; round trip of every produced snapshot through the exported decoder. Enumeration of the damage space per file, files sampled from runs.",
    note="Trusted: CRC-32 detection guarantees for single-bit flips; allocation is measured as runtime TotalAlloc delta round OpenReader in the child; ids up to 2^64-1 and coverage-guided fuzzing are outside this technique.",
    technique="deterministic simulation producing real snapshot files + enumerated storage-corruption faults recovered in a child process"),
+ "C13": dict(level="fault_enumeration", ref="3/C13",
+   text="Exhaustive enumeration (about 20 000 cases, seconds) of item sizes x pre-existing file states x item-writer outcomes (ok, error after k bytes, cancellation before/after k bytes) x os-level faults (open, truncate, write short/ENOSPC/EIO after k bytes, fsync, close) for both item kinds against the real FileSystemDirectory over a hooked os package; the oracle compares file bytes, requires a successful Sync after the last write and before success, and requires no residue after failure. The case space of the property's quantifier is finite and enumerated completely.",
+   note="Trusted: the os overlay hooks (pass-through unless a fault is armed); boundary set for k instead of every k; single caller.",
+   technique="I/O fault injection at the os seam (go build -overlay hook), exhaustive enumeration of fault points against the real directory implementation"),
  "C04": dict(level="exploration", ref="3/C04",
    text="Seeded search over simulated runs in which client actors hold several Readers of different ages open while batches, merges, persist swaps, unlinks and Close are scheduled between their reads; the first full read (count, match-all, stored fields, id lookup, sorted top-N over document values, aggregations, dictionary scan, phrase/boolean/conjunction/disjunction/range/prefix queries) is the baseline (checked against the abstract index at acquisition) and every later read must be identical; a fault of the process is reported as the violation. Sampling of schedules, not proof.",
    note="Trusted: gate wrappers delegate; regions between gates are atomic w.r.t. other gated actors; reads cover the listed query kinds only.",
